@@ -535,7 +535,21 @@ B ::= BOOLEAN".to_string(), 22),
     let mut writers = vec![];
     for f in m.fns.iter().filter(|f| f.krate == "rasn-compiler") {
         let b = tok(&f.block);
-        let lit = b.contains("Input{src_file") || b.contains("Input{inner") || (b.contains("Self{src_file") && f.self_ty.as_deref() == Some("Input"));
+        // a struct literal of Input (`Input { .. }`, or `Self { .. }` inside an impl of Input), whatever the order of its fields
+        struct L { me: bool, hit: bool }
+        impl model::DeepCb for L {
+            fn expr(&mut self, e: &syn::Expr) {
+                if let syn::Expr::Struct(st) = e {
+                    let n = st.path.segments.last().map(|x| x.ident.to_string()).unwrap_or_default();
+                    if n == "Input" || (n == "Self" && self.me) {
+                        self.hit = true;
+                    }
+                }
+            }
+        }
+        let mut l = L { me: f.self_ty.as_deref() == Some("Input"), hit: false };
+        model::deep_walk_block(&f.block, &mut l);
+        let lit = l.hit;
         let assign = [".line=", ".offset=", ".column=", ".line+=", ".offset+=", ".column+="].iter().any(|p| b.contains(p) && !b.contains(&format!("{}=", p)));
         if lit || (assign && f.module == "input") {
             writers.push(f.key.clone());
@@ -585,27 +599,7 @@ B ::= BOOLEAN".to_string(), 22),
         ctx.oblige("C17.book", "rest-of-input", true);
         ctx.floor("C17.book/hand-written-parser-results", results, 5);
     }
-    // constructors start at 1,1,0
-    for f in m.fns.iter().filter(|f| f.name == "from" && f.self_ty.as_deref() == Some("Input")) {
-        ctx.func(&f.key);
-        ctx.oblige("C17.book", &format!("ctor:{}", f.key), true);
-        let b = tok(&f.block);
-        if !(b.contains("line:1,") && b.contains("column:1,") && b.contains("offset:0,") && b.contains("context_start_line:1,") && b.contains("context_start_offset:0,")) {
-            ctx.violate("C17.book", &format!("ctor:{}", f.key), &f.file, f.line, "an Input starts at line 1, column 1, offset 0 with the context start at (1, 0)");
-        }
-    }
-    if let Ok(f) = m.find_fn(Some("Input"), "reset_context", None) {
-        ctx.oblige("C17.book", "reset_context", true);
-        if tok(&f.block) != "{self.context_start_line=self.line;self.context_start_offset=self.offset;}" {
-            ctx.violate("C17.book", "reset_context", &f.file, f.line, "reset_context must copy the current line and offset into the context start");
-        }
-    }
-    if let Ok(f) = m.find_fn(None, "context_boundary", Some("input")) {
-        ctx.oblige("C17.book", "context_boundary", true);
-        if !tok(&f.block).contains("input.reset_context();inner.parse(input)") {
-            ctx.violate("C17.book", "context_boundary", &f.file, f.line, "context_boundary must reset the context on the input it passes to the inner parser");
-        }
-    }
+    book_evaluated(m, ctx);
     // applied at the assignment boundaries of the lexer
     let mut applied = vec![];
     for f in m.fns.iter().filter(|f| f.module.starts_with("lexer")) {
@@ -625,18 +619,7 @@ B ::= BOOLEAN".to_string(), 22),
     ctx.sample(json!({"context_boundary_applied_in": applied}));
 
     // ---------------- C17.path ----------------
-    let tf = m.fns.iter().find(|f| f.name == "try_from" && f.self_ty.as_deref() == Some("AsnSourceUnit"));
-    match tf {
-        None => ctx.fail_closed("C17.path", "anchor not found: TryFrom<&AsnSource> for AsnSourceUnit"),
-        Some(f) => {
-            ctx.func(&f.key);
-            ctx.oblige("C17.path", "source-unit-path", true);
-            let b = tok(&f.block);
-            if !(b.contains("AsnSource::Path(path)=>Ok(AsnSourceUnit{path:Some(path),") && b.contains("AsnSource::Literal(literal)=>Ok(AsnSourceUnit{path:None,")) {
-                ctx.violate("C17.path", "source-unit-path", &f.file, f.line, "a file source must carry its path, a literal none");
-            }
-        }
-    }
+    path_evaluated(m, ctx);
     // the text the lexer sees is the source as given: reported offsets and lines are positions in the user's file /
     // literal, so nothing between reading the source and building the Input may rewrite the text
     if let Some(f) = m.fns.iter().find(|f| f.name == "try_from" && f.self_ty.as_deref() == Some("AsnSourceUnit")) {
@@ -666,28 +649,6 @@ B ::= BOOLEAN".to_string(), 22),
                     }
                 }
             }
-        }
-    }
-    let fi = m.fns.iter().find(|f| f.name == "from" && f.self_ty.as_deref() == Some("Input") && f.trait_.as_deref().map(|t| t.contains("AsnSourceUnit")).unwrap_or(false));
-    match fi {
-        None => ctx.fail_closed("C17.path", "anchor not found: From<&AsnSourceUnit> for Input"),
-        Some(f) => {
-            ctx.oblige("C17.path", "input-path", true);
-            if !tok(&f.block).contains("src_file:value.path,") {
-                ctx.violate("C17.path", "input-path", &f.file, f.line, "the Input must carry the source unit's path");
-            }
-        }
-    }
-    if let Ok(f) = m.find_fn(Some("Input"), "src_file", None) {
-        ctx.oblige("C17.path", "src_file-accessor", true);
-        if !tok(&f.block).contains("self.src_file.map(") {
-            ctx.violate("C17.path", "src_file-accessor", &f.file, f.line, "Input::src_file() must render the stored path");
-        }
-    }
-    if let Ok(f) = m.find_fn(None, "asn_spec", Some("lexer")) {
-        ctx.oblige("C17.path", "lexer-input", true);
-        if !tok(&f.block).contains("Input::from(&input)") {
-            ctx.violate("C17.path", "lexer-input", &f.file, f.line, "asn_spec must build its Input from the source unit (path included)");
         }
     }
 }
@@ -752,5 +713,258 @@ fn first_column_after_break(m: &Model) -> Option<i128> {
     match ev.eval_fn_body(&f.block, &mut env).ok()? {
         Val::Ctor(_, _, r) => match r.get("column") { Some(Val::Int { v, .. }) => Some(*v), _ => None },
         _ => None,
+    }
+}
+
+fn input_val(text: &str, file: Option<&str>, line: i128, column: i128, offset: i128, cs_line: i128, cs_offset: i128) -> crate::eval::Val {
+    use crate::eval::Val;
+    let mut fm = std::collections::BTreeMap::new();
+    fm.insert("inner".to_string(), Val::Str(text.into()));
+    for (k, v) in [("line", line), ("column", column), ("offset", offset), ("context_start_line", cs_line), ("context_start_offset", cs_offset)] {
+        fm.insert(k.to_string(), Val::int(v));
+    }
+    fm.insert("src_file".to_string(), file.map(|f| Val::some(Val::Str(f.into()))).unwrap_or(Val::none()));
+    Val::Ctor("Input".into(), vec![], fm)
+}
+
+fn field_int(v: &crate::eval::Val, name: &str) -> Option<i128> {
+    match v {
+        crate::eval::Val::Ctor(_, _, f) => match f.get(name) { Some(crate::eval::Val::Int { v, .. }) => Some(*v), _ => None },
+        _ => None,
+    }
+}
+
+fn field_of<'v>(v: &'v crate::eval::Val, name: &str) -> Option<&'v crate::eval::Val> {
+    match v { crate::eval::Val::Ctor(_, _, f) => f.get(name), _ => None }
+}
+
+fn params_of(f: &crate::model::FnInfo) -> Vec<String> {
+    f.sig.inputs.iter().filter_map(|a| match a { syn::FnArg::Typed(t) => Some(tok(&t.pat).replace("mut ", "")), _ => None }).collect()
+}
+
+/// C17.book, evaluated: Input's constructors start at (1, 1, 0) with the context start at (1, 0) and keep the text;
+/// reset_context copies the current line / offset into the context start and nothing else; the parser context_boundary
+/// builds hands its inner parser the input it was given with the context start moved to the current position.
+fn book_evaluated(m: &Model, ctx: &mut Ctx) {
+    use crate::eval::{Env, Evaluator, Val};
+    let consts = const_resolver(m);
+    let inl = inline_all(m, &["Input"]);
+    let hook = |_: &Evaluator, name: &str, a: &[Val]| -> Option<Result<Val, String>> {
+        match name {
+            // the inner parser is applied to the input it is handed: the rule observes that input
+            ".parse" if a.len() == 2 => Some(Ok(a[1].clone())),
+            ".as_ref" | ".as_str" | ".borrow" | ".deref" if a.len() == 1 => Some(Ok(a[0].clone())),
+            _ => None,
+        }
+    };
+    let ev = Evaluator { consts: &consts, call_hook: &hook, inline: Some(&inl) };
+    let mut n = 0;
+    for f in m.fns.iter().filter(|f| f.name == "from" && f.self_ty.as_deref() == Some("Input") && f.module == "input") {
+        ctx.func(&f.key);
+        let key = format!("ctor:{}", f.key);
+        ctx.oblige("C17.book", &key, true);
+        let from_unit = f.trait_.as_deref().map(|t| t.contains("AsnSourceUnit")).unwrap_or(false);
+        let arg = if from_unit {
+            let mut fm = std::collections::BTreeMap::new();
+            fm.insert("path".to_string(), Val::some(Val::Str("dir/x.asn".into())));
+            fm.insert("source".to_string(), Val::Str("A ::= B\nC ::= D".into()));
+            Val::Ctor("AsnSourceUnit".into(), vec![], fm)
+        } else {
+            Val::Str("A ::= B\nC ::= D".into())
+        };
+        let mut env = Env::new();
+        for p in params_of(f) {
+            env.insert(p, arg.clone());
+        }
+        match ev.eval_fn_body(&f.block, &mut env) {
+            Ok(v @ Val::Ctor(..)) => {
+                n += 1;
+                let got: Vec<Option<i128>> = ["line", "column", "offset", "context_start_line", "context_start_offset"].iter().map(|k| field_int(&v, k)).collect();
+                if got != vec![Some(1), Some(1), Some(0), Some(1), Some(0)] {
+                    ctx.violate("C17.book", &key, &f.file, f.line, &format!("an Input starts at line 1, column 1, offset 0 with the context start at (1, 0); this constructor yields line {:?}, column {:?}, offset {:?}, context start ({:?}, {:?}) — every position reported for the source is shifted by the difference", got[0], got[1], got[2], got[3], got[4]));
+                }
+                if !matches!(field_of(&v, "inner"), Some(Val::Str(s)) if s == "A ::= B\nC ::= D") {
+                    ctx.violate("C17.book", &format!("{}:text", key), &f.file, f.line, &format!("the Input does not hold the source text as given (inner = {}): offsets and lines are positions in another text", field_of(&v, "inner").map(|x| x.show()).unwrap_or_default()));
+                }
+                if from_unit {
+                    ctx.oblige("C17.path", "input-path", true);
+                    if !matches!(field_of(&v, "src_file"), Some(Val::Ctor(n, p, _)) if n == "Some" && matches!(p.first(), Some(Val::Str(s)) if s == "dir/x.asn")) {
+                        ctx.violate("C17.path", "input-path", &f.file, f.line, &format!("the Input built from a source unit read from dir/x.asn carries src_file = {}: errors of a file source are reported without (or with another) file name", field_of(&v, "src_file").map(|x| x.show()).unwrap_or_default()));
+                    }
+                }
+            }
+            Ok(o) => ctx.fail_closed("C17.book", &format!("[{}] yields {}", f.key, o.show().chars().take(100).collect::<String>())),
+            Err(e) => ctx.fail_closed("C17.book", &format!("[{}]: {}", f.key, e)),
+        }
+    }
+    ctx.floor("C17.book/constructors-evaluated", n, 2);
+
+    match m.find_fn(Some("Input"), "reset_context", None) {
+        Ok(f) => {
+            ctx.func(&f.key);
+            ctx.oblige("C17.book", "reset_context", true);
+            let before = input_val("C ::= D", Some("dir/x.asn"), 7, 3, 42, 2, 10);
+            let mut env = Env::new();
+            env.insert("self".into(), before.clone());
+            match ev.eval_fn_body(&f.block, &mut env) {
+                Ok(_) => {
+                    let after = env.get("self").cloned().unwrap_or(Val::Unit);
+                    let want = input_val("C ::= D", Some("dir/x.asn"), 7, 3, 42, 7, 42);
+                    if after != want {
+                        ctx.violate("C17.book", "reset_context", &f.file, f.line, &format!("reset_context on an Input at line 7, column 3, offset 42 (context start 2 / 10) must move the context start to (7, 42) and change nothing else; it leaves line {:?}, column {:?}, offset {:?}, context start ({:?}, {:?})", field_int(&after, "line"), field_int(&after, "column"), field_int(&after, "offset"), field_int(&after, "context_start_line"), field_int(&after, "context_start_offset")));
+                    }
+                }
+                Err(e) => ctx.fail_closed("C17.book", &format!("[reset_context]: {}", e)),
+            }
+        }
+        Err(e) => ctx.fail_closed("C17.book", &format!("anchor not found: Input::reset_context ({})", e)),
+    }
+
+    match m.find_fn(None, "context_boundary", Some("input")) {
+        Ok(f) => {
+            ctx.func(&f.key);
+            ctx.oblige("C17.book", "context_boundary", true);
+            // the parser the fn returns: its trailing closure
+            let clos = f.block.stmts.last().and_then(|s| match s { syn::Stmt::Expr(e @ syn::Expr::Closure(_), None) => Some(e), _ => None });
+            match clos {
+                None => ctx.fail_closed("C17.book", "[context_boundary]: the fn does not end in the parser closure it returns"),
+                Some(c) => {
+                    let mut env = Env::new();
+                    for p in params_of(f) {
+                        env.insert(p, Val::Opaque("inner parser".into()));
+                    }
+                    let given = input_val("C ::= D", Some("dir/x.asn"), 7, 3, 42, 2, 10);
+                    match ev.apply_closure(c, &[given], &env) {
+                        Ok(got) => {
+                            let want = input_val("C ::= D", Some("dir/x.asn"), 7, 3, 42, 7, 42);
+                            if got != want {
+                                ctx.violate("C17.book", "context_boundary", &f.file, f.line, &format!("context_boundary must hand its inner parser the input it was given with the context start moved to the current position (line 7, offset 42): the inner parser receives {} — the excerpt of a later error starts at an earlier definition, or the position is lost", got.show().chars().take(200).collect::<String>()));
+                            }
+                        }
+                        Err(e) => ctx.fail_closed("C17.book", &format!("[context_boundary]: {}", e)),
+                    }
+                }
+            }
+        }
+        Err(e) => ctx.fail_closed("C17.book", &format!("anchor not found: input::context_boundary ({})", e)),
+    }
+}
+
+/// C17.path, evaluated: AsnSource -> AsnSourceUnit keeps the path of a file source and the text as read / given;
+/// asn_spec hands the lexer an Input that carries both; Input::src_file() renders the stored path.
+fn path_evaluated(m: &Model, ctx: &mut Ctx) {
+    use crate::eval::{Env, Evaluator, Val};
+    use std::cell::RefCell;
+    let consts = const_resolver(m);
+    let inl = inline_all(m, &["Input"]);
+    let seen: RefCell<Vec<Val>> = RefCell::new(vec![]);
+    let from_unit = m.fns.iter().find(|f| f.name == "from" && f.self_ty.as_deref() == Some("Input") && f.trait_.as_deref().map(|t| t.contains("AsnSourceUnit")).unwrap_or(false));
+    let hook = |ev: &Evaluator, name: &str, a: &[Val]| -> Option<Result<Val, String>> {
+        match name {
+            "read_to_string" | "fs::read_to_string" | "std::fs::read_to_string" if a.len() == 1 => Some(Ok(Val::Ctor("Ok".into(), vec![Val::Str("FILE ::= TEXT\r\n".into())], Default::default()))),
+            "Cow::Owned" | "Cow::Borrowed" | "Cow::from" | "String::from" if a.len() == 1 => Some(Ok(a[0].clone())),
+            ".to_string_lossy" | ".as_ref" | ".as_str" | ".as_path" | ".display" | ".into_owned" | ".to_path_buf" | ".deref" | ".borrow" if a.len() == 1 => Some(Ok(a[0].clone())),
+            // `Input::from(&unit)` / `unit.into()`: the crate has one conversion from a source unit, From<&AsnSourceUnit> for Input
+            "Input::from" | "Input::new" | ".into" | "Into::into" | "From::from" if a.len() == 1 && matches!(&a[0], Val::Ctor(n, ..) if n == "AsnSourceUnit") => {
+                let f = from_unit?;
+                let mut env = Env::new();
+                for p in params_of(f) {
+                    env.insert(p, a[0].clone());
+                }
+                Some(ev.eval_fn_body(&f.block, &mut env))
+            }
+            // the module parser: the rule observes the Input it is given and stops the loop with a failure
+            "asn_module" if a.len() == 1 => {
+                seen.borrow_mut().push(a[0].clone());
+                Some(Ok(Val::Ctor("Err".into(), vec![Val::Ctor("Failure".into(), vec![Val::Opaque("error tree".into())], Default::default())], Default::default())))
+            }
+            _ => None,
+        }
+    };
+    let ev = Evaluator { consts: &consts, call_hook: &hook, inline: Some(&inl) };
+
+    match m.fns.iter().find(|f| f.name == "try_from" && f.self_ty.as_deref() == Some("AsnSourceUnit")) {
+        None => ctx.fail_closed("C17.path", "anchor not found: TryFrom<&AsnSource> for AsnSourceUnit"),
+        Some(f) => {
+            ctx.func(&f.key);
+            for (variant, payload, want_path, want_text) in [("Path", "dir/x.asn", Some("dir/x.asn"), "FILE ::= TEXT\r\n"), ("Literal", "LIT ::= TEXT\r\n", None, "LIT ::= TEXT\r\n")] {
+                ctx.oblige("C17.path", &format!("source-unit-path:{}", variant), true);
+                let mut env = Env::new();
+                for p in params_of(f) {
+                    env.insert(p, Val::Ctor(variant.into(), vec![Val::Str(payload.into())], Default::default()));
+                }
+                match ev.eval_fn_body(&f.block, &mut env) {
+                    Ok(Val::Ctor(ok, p, _)) if ok == "Ok" && p.len() == 1 => {
+                        let u = &p[0];
+                        let path_ok = match (want_path, field_of(u, "path")) {
+                            (Some(w), Some(Val::Ctor(n, pp, _))) => n == "Some" && matches!(pp.first(), Some(Val::Str(s)) if s == w),
+                            (None, Some(Val::Ctor(n, _, _))) => n == "None",
+                            _ => false,
+                        };
+                        if !path_ok {
+                            ctx.violate("C17.path", "source-unit-path", &f.file, f.line, &format!("a source given as AsnSource::{} becomes a unit with path = {}: a file source must carry its path, a literal none", variant, field_of(u, "path").map(|x| x.show()).unwrap_or_default()));
+                        }
+                        if !matches!(field_of(u, "source"), Some(Val::Str(s)) if s == want_text) {
+                            ctx.violate("C17.path", &format!("source-text-rewritten:{}", variant), &f.file, f.line, &format!("the text of an AsnSource::{} reaches the lexer as {}: reported lines and offsets must be positions in the text the user gave ({:?})", variant, field_of(u, "source").map(|x| x.show()).unwrap_or_default(), want_text));
+                        }
+                    }
+                    Ok(o) => ctx.fail_closed("C17.path", &format!("[AsnSourceUnit::try_from {}] yields {}", variant, o.show().chars().take(100).collect::<String>())),
+                    Err(e) => ctx.fail_closed("C17.path", &format!("[AsnSourceUnit::try_from {}]: {}", variant, e)),
+                }
+            }
+        }
+    }
+
+    match m.find_fn(None, "asn_spec", Some("lexer")) {
+        Err(e) => ctx.fail_closed("C17.path", &format!("anchor not found: lexer::asn_spec ({})", e)),
+        Ok(f) => {
+            ctx.func(&f.key);
+            ctx.oblige("C17.path", "lexer-input", true);
+            let mut fm = std::collections::BTreeMap::new();
+            fm.insert("path".to_string(), Val::some(Val::Str("dir/x.asn".into())));
+            fm.insert("source".to_string(), Val::Str("A ::= B\r\nC ::= D".into()));
+            let unit = Val::Ctor("AsnSourceUnit".into(), vec![], fm);
+            let mut env = Env::new();
+            for p in params_of(f) {
+                env.insert(p, unit.clone());
+            }
+            match ev.eval_fn_body(&f.block, &mut env) {
+                Ok(_) => {
+                    let s = seen.borrow();
+                    let want = input_val("A ::= B\r\nC ::= D", Some("dir/x.asn"), 1, 1, 0, 1, 0);
+                    match s.first() {
+                        None => ctx.fail_closed("C17.path", "[asn_spec]: the module parser is never applied"),
+                        Some(got) if *got != want => ctx.violate("C17.path", "lexer-input", &f.file, f.line, &format!("asn_spec applies the module parser to {} for a source unit read from dir/x.asn: the first module must be parsed from the whole text at line 1, column 1, offset 0 with the unit's path", got.show().chars().take(220).collect::<String>())),
+                        _ => {}
+                    }
+                }
+                Err(e) => ctx.fail_closed("C17.path", &format!("[asn_spec]: {}", e)),
+            }
+        }
+    }
+
+    match m.find_fn(Some("Input"), "src_file", None) {
+        Err(e) => ctx.fail_closed("C17.path", &format!("anchor not found: Input::src_file ({})", e)),
+        Ok(f) => {
+            ctx.func(&f.key);
+            for file in [Some("dir/x.asn"), None] {
+                ctx.oblige("C17.path", &format!("src_file-accessor:{}", file.is_some()), true);
+                let mut env = Env::new();
+                env.insert("self".into(), input_val("x", file, 1, 1, 0, 1, 0));
+                match ev.eval_fn_body(&f.block, &mut env) {
+                    Ok(v) => {
+                        let ok = match (file, &v) {
+                            (Some(w), Val::Ctor(n, p, _)) => n == "Some" && matches!(p.first(), Some(Val::Str(s)) if s == w),
+                            (None, Val::Ctor(n, _, _)) => n == "None",
+                            _ => false,
+                        };
+                        if !ok {
+                            ctx.violate("C17.path", "src_file-accessor", &f.file, f.line, &format!("Input::src_file() of an input read from {:?} yields {}: the error report names another file or none", file, v.show()));
+                        }
+                    }
+                    Err(e) => ctx.fail_closed("C17.path", &format!("[Input::src_file]: {}", e)),
+                }
+            }
+        }
     }
 }
